@@ -62,6 +62,12 @@ func c04invalid(env *core.Env) []string {
 
 var c04valid = []string{`a\b`, `a:b`, `C:`, `..a`, `a..`, `...`, `a b`, "ü", `a\..\b`, `d/a\b`, `d/C:`, `m/a\b`, `d/..a`, `\`, `:`}
 
+func init() {
+	// valid names the OS (or a store) may be unable to hold: too long is an answer of its own, never "invalid name"
+	c04valid = append(c04valid, strings.Repeat("L", 255), strings.Repeat("L", 256), strings.Repeat("ü", 200), "d/"+strings.Repeat("n", 300),
+		strings.TrimSuffix(strings.Repeat(strings.Repeat("p", 200)+"/", 30), "/"))
+}
+
 func c04shape(s string) string {
 	var sh string
 	switch {
@@ -232,7 +238,9 @@ func newC04Subject(env *core.Env, name string, populatedState bool) (*c04subject
 		return s, err
 	case "tar", "tar-broken":
 		dst, _ := mem.NewFS()
-		archive := buildTarVerbatim(items)
+		// (two members whose names are spelled with a doubled leading slash and with a climb right after the root: both
+		// resolve inside the root; an archive holding them unpacks, and valid names are looked up as usual)
+		archive := buildTarVerbatim(append(append([]treeItem(nil), items...), treeItem{Path: "//abs2/file", Perm: 0o644, Data: "abs"}, treeItem{Path: "/../up.txt", Perm: 0o644, Data: "up"}))
 		if name == "tar-broken" {
 			// the archive ends inside its last entry: unpacking fails, and every later call goes through the FS's failure paths
 			// (directories only before it: they are created in the foreground, so nothing is still being written when Done() closes)
@@ -457,7 +465,14 @@ func c04run(env *core.Env, idx int) core.CaseResult {
 		_ = hackpadfs.MkdirAll(sub.fs, "lk", 0o755)
 		_ = hackpadfs.MkdirAll(sub.fs, "lk-archive/2024", 0o755)
 		_ = hackpadfs.MkdirAll(sub.fs, "lk2", 0o755)
-		for _, pair := range [][2]string{{"lk", "lk-archive/2024/moved"}, {"lk2", "lk-archive/lk2"}, {"lk-archive/2024", "lk-archive/2024x"}} {
+		// ... and a file moved over an existing file that sits directly below "m" and "d/m2" (mount points on the mount subjects:
+		// the move is then a copy, whose temporary names are the library's own business and must be valid ones)
+		_ = hackpadfs.WriteFullFile(sub.fs, "xsrc1", []byte("s1"), 0o644)
+		_ = hackpadfs.WriteFullFile(sub.fs, "xsrc2", []byte("s2"), 0o644)
+		_ = hackpadfs.WriteFullFile(sub.fs, "m/xdst", []byte("d1"), 0o644)
+		_ = hackpadfs.WriteFullFile(sub.fs, "d/m2/xdst", []byte("d2"), 0o644)
+		_ = hackpadfs.WriteFullFile(sub.fs, "xdst0", []byte("d0"), 0o644)
+		for _, pair := range [][2]string{{"xsrc1", "m/xdst"}, {"xsrc2", "d/m2/xdst"}, {"m/xdst", "xdst0"}, {"lk", "lk-archive/2024/moved"}, {"lk2", "lk-archive/lk2"}, {"lk-archive/2024", "lk-archive/2024x"}} {
 			st := fsx.Step{K: "Rename", P: pair[0], P2: pair[1]}
 			r := fsx.Exec(sub.fs, st, &hs, nil)
 			res.Count("valid_calls", 1)
